@@ -87,7 +87,16 @@ type Stream struct {
 	// when callback.OnData inner call stream.Close set this field
 	// after OnData return check state and call stream.Close again
 	callbackCloseState uint32
+	// who took the stream out of the opened state first: the peer's close notification
+	// (halfClose) or a local Close that had to be deferred because a callback was running.
+	// It is claimed before the state changes, so close() can tell the two apart.
+	halfClosedBy uint32
 }
+
+const (
+	halfClosedByPeer  uint32 = 1
+	halfClosedByLocal uint32 = 2
+)
 
 // newStream is used to construct a new stream within
 // a given session for an ID
@@ -277,7 +286,10 @@ func (s *Stream) Close() error {
 		atomic.StoreUint32(&s.callbackCloseState, uint32(callbackWaitExit))
 	}
 	if atomic.LoadUint32(&s.callbackInProcess) == 1 {
-		atomic.CompareAndSwapUint32(&s.state, uint32(streamOpened), uint32(streamHalfClosed))
+		// the callback goroutine completes the close when OnData has returned
+		if atomic.CompareAndSwapUint32(&s.halfClosedBy, 0, halfClosedByLocal) {
+			atomic.CompareAndSwapUint32(&s.state, uint32(streamOpened), uint32(streamHalfClosed))
+		}
 		return nil
 	}
 
@@ -303,7 +315,10 @@ func (s *Stream) close() error {
 		s.asyncGoroutineWg.Wait()
 	}
 	s.clean()
-	if oldState == uint32(streamOpened) {
+	// a local Close that was deferred while OnData ran left the stream half-closed: it is still
+	// this end that closes, so the close is reported and the peer is told
+	if oldState == uint32(streamOpened) ||
+		(oldState == uint32(streamHalfClosed) && atomic.LoadUint32(&s.halfClosedBy) == halfClosedByLocal) {
 		s.safeCloseNotify()
 		callback := s.getCallbacks()
 		if callback != nil {
@@ -339,7 +354,8 @@ func (s *Stream) clean() {
 }
 
 func (s *Stream) halfClose() {
-	if atomic.CompareAndSwapUint32(&s.state, uint32(streamOpened), uint32(streamHalfClosed)) {
+	if atomic.CompareAndSwapUint32(&s.halfClosedBy, 0, halfClosedByPeer) &&
+		atomic.CompareAndSwapUint32(&s.state, uint32(streamOpened), uint32(streamHalfClosed)) {
 		s.safeCloseNotify()
 		callback := s.getCallbacks()
 		if callback != nil {
